@@ -133,8 +133,8 @@ func epMatrix(e *srvx.Episode) {
 	}
 }
 
-// crash episodes: a subscription with an item owned by a valid session, then one request
-// without a valid session that reaches a dereference of the nil session
+// existing-id episodes: a subscription with an item owned by a valid session, then one request
+// without a valid session that names it (these used to dereference the nil session and kill the server)
 func epCrash(which string) func(e *srvx.Episode) {
 	return func(e *srvx.Episode) {
 		e.Cast()
@@ -278,9 +278,9 @@ func main() {
 	for _, e := range out {
 		evaluate(r, d, e)
 	}
-	for _, b := range []string{"out:ok", "out:sessionerr", "out:fault", "out:noresponse", "out:crash", "served-valid", "refused:publish",
+	for _, b := range []string{"out:ok", "out:sessionerr", "out:fault", "out:noresponse", "served-valid", "refused:publish",
+		"refused:subscription", "refused:monitoreditems",
 		"violation:C35.read-without-session", "violation:C35.write-without-session", "violation:C35.browse-without-session",
-		"violation:C35.subscription-without-session", "violation:C35.monitoreditems-without-session",
 		"violation:C35.unsupported-without-session", "violation:C35.not-activated-session-accepted"} {
 		if r.Distribution[b] == 0 && o.Replay == "" {
 			r.Unreached = append(r.Unreached, b)
